@@ -27,7 +27,7 @@ LEAN_NAMESPACES = ['MpycV.C37']
 REQUIRED_THEOREMS = ['broadcast_spec', 'index_roundtrip', 'map2_spec', 'map2_inherits', 'map2_zipWith',
                      'matmul_shape', 'matmul_index', 'reshape_spec', 'transpose_involution',
                      'concatenate_split_roundtrip', 'roll_spec', 'stack_shape',
-                     'old_stack_rule_negative_axis_differs']
+                     'old_stack_rule_negative_axis_differs', 'moveLast_lanes', 'swap_lanes_differ']
 RULE = ('case = (np_* operation, secure type in {secint24, secfxp32:16, secfld(p) p in {11,101,2^31-1}, GF(2^8)}, '
         'config in {m=1; m=3 PRSS; m=3 no-PRSS; m=5 (t=2) PRSS; thorough also m=5 no-PRSS}, seed -> random shapes (<= 3 dims, size <= 24, broadcasting pairs, '
         'zero-size arrays where accepted) and values inside the type bounds); EVERY operation of the table is run under '
